@@ -96,7 +96,7 @@ def split_run(job, r, env, t0):
     for pid in ids:
         try:
             q = subprocess.run(cbmc_cmd(job) + ['--property', pid], stdout=subprocess.PIPE, stderr=subprocess.STDOUT,
-                               env=env, timeout=job.timeout, preexec_fn=_limits)
+                               env=env, timeout=max(job.timeout, 150), preexec_fn=_limits)
         except subprocess.TimeoutExpired:
             r.seconds = time.time() - t0
             r.reason = 'timeout after %ds, and obligation %s alone also exceeds %ds' % (job.timeout, pid, job.timeout)
